@@ -22,6 +22,8 @@ With `filters`, `filter_row_groups(pf, filters, as_idx=True)` is an ASSUMED stri
                                                          ==> c is listed  (the result is exactly the set of such columns)
   and on the way  sorted_columns.no_compare_with_None@L..  (sorted() / `<` never see a None: TypeError in Python),
   index_in_range@L.. (every `s[stat][col][i]`), returns_collected_dict.
+  Frame:  sorted_columns.statistics_are_a_fresh_object_or_not_mutated   every store into a statistics structure targets the object
+          obtained in THIS call from statistics(pf), never pf.statistics / pf._statistics;   sorted_columns.handle_not_mutated.
 
 statistics(ColumnChunk) - the ThriftObject is a proof-script object:
     statistics.max_from_max_else_max_value / min_from_min_else_min_value   rv['max'] is decoded from s.max when that is set,
@@ -56,6 +58,8 @@ ASSUMED = [
     "a comprehension `[e for x in xs]` is xs mapped through e in order; any()/all() are exists/forall over it",
     "statistic values are totally ordered scalars (modelled as Int); NaN / unordered values are outside the model (bounded layer)",
     "dict keys are distinct: a loop over d.keys() visits every key once; pf.columns are keys of every s[stat]",
+    "statistics(pf) returns freshly built dicts and lists (its source builds them with comprehensions on every call); pf.statistics / "
+    "pf._statistics is the handle's cached object (same content, owned by the handle)",
     "statistics(ColumnChunk): ensure_bytes returns the bytes of its argument; encoding.read_plain may raise (bare `except:` -> None)",
 ]
 
@@ -617,30 +621,48 @@ class Model:
                          forall_range(0, m, lambda a: forall_range(0, m, lambda b: z3.Implies(a < b, IDX(a) < IDX(b)), "ib"), "ia")]
 
 
-class StatsD(H):
-    """the dict returned by statistics(pf); the current list of (stat, column) is path.ghost['lists'][stat](column term)"""
+def note_store(p, owner, what):
+    """ghost trace of every mutation of a statistics structure: who owns the object that is written"""
+    p.ghost["stat_stores"] = list(p.ghost.get("stat_stores", [])) + [(owner, what)]
 
-    def __init__(self, mdl):
-        self.mdl = mdl
+
+class StatsD(H):
+    """a statistics dict: owner 'call' = the object statistics(pf) built in THIS call (fresh by that function's contract: new dicts
+    and lists), owner 'handle' = what the handle holds (pf.statistics / pf._statistics: the cached object every later caller sees).
+    The current list of (stat, column) is path.ghost['lists'][stat](column term)"""
+
+    def __init__(self, mdl, owner="call"):
+        self.mdl, self.owner = mdl, owner
 
     def init(self, p):
         p.ghost["lists"] = {s: (lambda c, s=s: self.mdl.orig(s, c)) for s in STATS}
 
     def getitem(self, eng, p, i, node):
         if isinstance(i, Str) and i.s in STATS:
-            return Custom(StatCols(i.s))
+            return Custom(StatCols(i.s, self.owner))
         raise Unsupported("statistics()[...] with a key that is not one of the four statistics")
 
     def call_method(self, eng, p, name, args, kw, node):
         if name == "keys" and not args:
             return [(p, Custom(StatKeys()))]
+        if name in ("pop", "popitem", "clear", "update", "setdefault", "__setitem__", "__delitem__") and self.owner == "handle":
+            note_store(p, self.owner, "." + name + "()")
+            return [(p, Opaque(("dict_op", name, next(eng.counter))))]
         raise Unsupported("statistics()." + name)
 
     def iterate(self, eng, p):
         return [Str(s) for s in STATS]
 
+    def truth(self, eng, p):        # the handle's cache may not be filled yet (pf._statistics is None)
+        return z3.BoolVal(True) if self.owner == "call" else z3.Bool("handle_statistics_cache_is_filled")
+
+    def is_none(self, eng, p):
+        return z3.Not(self.truth(eng, p))
+
     def setitem(self, eng, p, i, v, node):
-        raise Unsupported("replacing a whole statistic dict")
+        note_store(p, self.owner, "[stat] = ...")
+        if self.owner == "call":
+            raise Unsupported("replacing a whole statistic dict")
 
 
 class StatKeys(H):
@@ -651,8 +673,8 @@ class StatKeys(H):
 class StatCols(H):
     """s[stat]: column name -> list"""
 
-    def __init__(self, stat):
-        self.stat = stat
+    def __init__(self, stat, owner="call"):
+        self.stat, self.owner = stat, owner
 
     def _col(self, p, i):
         if not (isinstance(i, Custom) and isinstance(i.h, ColName)):
@@ -675,11 +697,15 @@ class StatCols(H):
             raise Unsupported("store into the statistics outside the loop over their columns")
         if not (isinstance(v, Custom) and isinstance(v.h, LSeq)):
             raise Unsupported("a statistic replaced by something that is not a list")
+        note_store(p, self.owner, f"[{self.stat!r}][col] = ...")
         p.ghost.setdefault("pending", {})[self.stat] = v
 
     def call_method(self, eng, p, name, args, kw, node):
         if name == "keys" and not args:
             return [(p, Custom(ColKeys(self.stat)))]
+        if name in ("pop", "popitem", "clear", "update", "setdefault") and self.owner == "handle":
+            note_store(p, self.owner, f"[{self.stat!r}].{name}()")
+            return [(p, Opaque(("dict_op", name, next(eng.counter))))]
         raise Unsupported("s[stat]." + name)
 
     def for_loop(self, eng, p, st):
@@ -757,7 +783,21 @@ class PF(H):
     def attr(self, eng, p, name):
         if name == "columns":
             return Custom(ColList(self.mdl, self.sink))
+        if name in ("statistics", "_statistics"):
+            # the property returns the handle's CACHED object - owned by the handle, distinct from what statistics(pf) builds
+            d = StatsD(self.mdl, owner="handle")
+            if "lists" not in p.ghost:
+                d.init(p)
+            return Custom(d)
         raise Unsupported("pf." + name)
+
+    def setattr(self, eng, p, name, v):
+        p.ghost["pf_writes"] = list(p.ghost.get("pf_writes", [])) + ["." + name + " = ..."]
+
+    def call_method(self, eng, p, name, args, kw, node):
+        # nothing sorted_partitioned_columns has to call on the handle; any method may mutate it
+        p.ghost["pf_writes"] = list(p.ghost.get("pf_writes", [])) + ["." + name + "()"]
+        return [(p, Opaque(("pf_method", name, next(eng.counter))))]
 
 
 class Filters(H):
@@ -902,6 +942,14 @@ def run_sorted(funcs, timeout, n_rg, m_sel, collapsed="symbolic", paths_only=Fal
         n_ret += 1
         v = q.ctl[1]
         ok = isinstance(v, Custom) and isinstance(v.h, DictV) and not any(isinstance(k, Str) for k, _ in v.h.items(q))
+        bad = [w for o, w in q.ghost.get("stat_stores", []) if o != "call"]
+        res.add("sorted_columns.statistics_are_a_fresh_object_or_not_mutated", PROVED if not bad else REFUTED,
+                None if not bad else {"stores_into_the_handles_cached_statistics": bad, "needs": "filters given (non-empty)"},
+                0.0, "trace", "frame: every store into a statistics structure (" + str(len(q.ghost.get("stat_stores", []))) + " on this path) targets the object "
+                "statistics(pf) built in this call, never pf.statistics / pf._statistics (the handle's cache, seen by every later call)")
+        pw = q.ghost.get("pf_writes", [])
+        res.add("sorted_columns.handle_not_mutated", PROVED if not pw else REFUTED, None if not pw else {"on_the_handle": pw}, 0.0, "trace",
+                "no attribute of pf is assigned and no method is called on it")
         res.add("sorted_columns.returns_collected_dict", PROVED if ok else REFUTED, None, 0.0, "trace",
                 "the value returned is the dict the column loop stores into")
     return res, (n_listed, n_ret, sink)
